@@ -87,7 +87,7 @@ type FnLocks struct {
 }
 
 func NewLockAn(p *Prog, rel string) *LockAn {
-	la := &LockAn{P: p, Pkg: p.Pkg(rel), Funcs: p.SrcFuncs(rel), alias: map[string]string{},
+	la := &LockAn{P: p, Pkg: p.Pkg(rel), Funcs: p.SrcFuncsRaw(rel), alias: map[string]string{},
 		results: map[*ssa.Function]*FnLocks{}, entry: map[*ssa.Function]LockSet{}, inprog: map[*ssa.Function]bool{}, inrel: map[*ssa.Function]bool{}}
 	la.computeAliases()
 	return la
@@ -108,7 +108,7 @@ func (la *LockAn) computeAliases() {
 		return x
 	}
 	for _, fn := range la.Funcs {
-		AllInstrs(fn, func(in ssa.Instruction) {
+		rawInstrs(fn, func(in ssa.Instruction) {
 			st, ok := in.(*ssa.Store)
 			if !ok {
 				return
@@ -369,7 +369,7 @@ func (la *LockAn) releasesOf(fn *ssa.Function) map[string]bool {
 	la.inrel[fn] = true
 	defer delete(la.inrel, fn)
 	r := la.Analyze(fn, LockSet{})
-	AllInstrs(fn, func(ins ssa.Instruction) {
+	rawInstrs(fn, func(ins ssa.Instruction) {
 		c, ok := ins.(ssa.CallInstruction)
 		if !ok {
 			return
@@ -399,7 +399,7 @@ func (la *LockAn) releasesOf(fn *ssa.Function) map[string]bool {
 
 func (la *LockAn) locksSomewhere(fn *ssa.Function, id string) bool {
 	found := false
-	AllInstrs(fn, func(ins ssa.Instruction) {
+	rawInstrs(fn, func(ins ssa.Instruction) {
 		if c, ok := ins.(ssa.CallInstruction); ok {
 			if op, isOp := la.opOf(c); isOp && op.id == id && (op.mode == 'W' || op.mode == 'R') {
 				found = true
@@ -434,7 +434,7 @@ func (la *LockAn) EntryLocks(fn *ssa.Function) LockSet {
 			continue
 		}
 		var sites []ssa.Instruction
-		AllInstrs(caller, func(ins ssa.Instruction) {
+		rawInstrs(caller, func(ins ssa.Instruction) {
 			c, ok := ins.(ssa.CallInstruction)
 			if !ok {
 				return
@@ -524,7 +524,7 @@ func (la *LockAn) Accesses(f *types.Var) []FieldAccess {
 	var out []FieldAccess
 	isF := func(v ssa.Value) bool { return AllOrigins(v, IsFieldLoad(f)) }
 	for _, fn := range la.Funcs {
-		AllInstrs(fn, func(ins ssa.Instruction) {
+		rawInstrs(fn, func(ins ssa.Instruction) {
 			switch x := ins.(type) {
 			case *ssa.Store:
 				if g, _ := FieldOf(x.Addr); g == f {
@@ -576,7 +576,7 @@ type OrderEdge struct {
 func (la *LockAn) LockOrder() []OrderEdge {
 	var out []OrderEdge
 	for _, fn := range la.Funcs {
-		for _, cl := range CallsIn(fn) {
+		for _, cl := range rawCallsIn(fn) {
 			if _, isCall := cl.(*ssa.Call); !isCall {
 				continue
 			}
@@ -627,7 +627,7 @@ type LockLeak struct {
 func (la *LockAn) Leaks(fn *ssa.Function) []LockLeak {
 	r := la.Result(fn)
 	handed := map[string]bool{}
-	AllInstrs(fn, func(ins ssa.Instruction) {
+	rawInstrs(fn, func(ins ssa.Instruction) {
 		if g, ok := ins.(*ssa.Go); ok {
 			cal := CalleeFn(&g.Call)
 			if cal == nil {
@@ -669,7 +669,7 @@ func (la *LockAn) ReportLeaks(c *Check, id string, funcs []*ssa.Function) {
 			c.Report(false, id, "LOCK-RELEASED-ON-EVERY-EXIT", fn, l.Ret.Pos(), "return holding "+strings.Join(l.IDs, ","), "a lock acquired by this function is still held at this return (every later caller blocks forever)")
 		}
 		has := false
-		for _, cl := range CallsIn(fn) {
+		for _, cl := range rawCallsIn(fn) {
 			if op, ok := la.opOf(cl); ok && (op.mode == 'W' || op.mode == 'R') {
 				has = true
 			}
@@ -690,7 +690,7 @@ func (la *LockAn) MayHoldAt(site ssa.Instruction) LockSet {
 	fn := site.Parent()
 	out := LockSet{}
 	var ops []ssa.CallInstruction
-	for _, cl := range CallsIn(fn) {
+	for _, cl := range rawCallsIn(fn) {
 		if _, ok := la.opOf(cl); ok {
 			ops = append(ops, cl)
 		}
@@ -714,5 +714,16 @@ func (la *LockAn) MayHoldAt(site ssa.Instruction) LockSet {
 			out[op.id] = op.mode
 		}
 	}
+	return out
+}
+
+// rawCallsIn lists the call instructions of fn itself (the lock analysis follows calls on its own).
+func rawCallsIn(fn *ssa.Function) []ssa.CallInstruction {
+	var out []ssa.CallInstruction
+	rawInstrs(fn, func(in ssa.Instruction) {
+		if c, ok := in.(ssa.CallInstruction); ok {
+			out = append(out, c)
+		}
+	})
 	return out
 }
